@@ -212,13 +212,28 @@ def rename_map(code0, code1, sm=None):
                     for k in range(a2 - a1):
                         vote(code0[i1 + a1 + k], code1[j1 + b1 + k])
     sa, sb = set(a), set(b)
+
+    def only_a_value(name, seq):
+        """every occurrence of `name` is a plain value position: never a call / macro / path segment / field / struct name.
+        Renaming is for LOCALS (let, parameter, closure and pattern bindings) only - a function the source now calls under another
+        name is a different function, not a renaming."""
+        for i, t in enumerate(seq):
+            if t != name:
+                continue
+            nxt = seq[i + 1] if i + 1 < len(seq) else ""
+            prv = seq[i - 1] if i > 0 else ""
+            if nxt in ("(", "!", "::", "<") or prv in (".", "::", "fn", "struct", "enum", "impl", "trait", "type", "mod", "use"):
+                return False
+            if nxt == "{" and name[:1].isupper():
+                return False
+        return True
     ren = {}
     for x, ys in votes.items():
         ranked = sorted(ys.items(), key=lambda kv: -kv[1])
         if len(ranked) > 1 and ranked[0][1] == ranked[1][1]:
             continue
         y = ranked[0][0]
-        if y in sa:
+        if y in sa or not only_a_value(x, a) or not only_a_value(y, b):
             continue
         if x not in sb or _unshadowed(b, x, y):
             ren[x] = y
